@@ -239,9 +239,9 @@ CONDS = [
     make_cond(_G, "runner_batching", body_runner, _RS,
               ["n1 == 2 and n2 == 2 and nvars == 2 and idim and not const_is_dim and 0 <= mode <= 2 and 1 <= b <= 3",
                "0 <= j1 <= 1 and 0 <= j2 <= 2 and 0 <= j3 <= 3", "shuf or (j1 == 0 and j2 == 0 and j3 == 0)",
-               "not shuf or (mode == 1 and b == 2 and not cases and not reload_)"], timeout=600,
+               "not shuf or (mode == 1 and b == 2 and not cases)"], timeout=600,
               bounds="2x2 grid / 3 cases, two variables: all batchings (b in 1..3), reload on/off; plus every "
-                     "sow-time shuffle permutation (batchsize 2)"),
+                     "sow-time shuffle permutation (batchsize 2), reaped by the sowing object or by a reloaded one"),
 ] + split_conds(_G, "harvester", body_harvester, "n1:int pre:bool mode:int b:int reload_:bool base:int t:int p1:bool p2:bool",
               ["1 <= n1 <= 2 and 0 <= mode <= 2 and 1 <= b <= 2 and not p2", "pre or not p1"], "ow", [0, 1, 2],
               timeout=900,
